@@ -157,9 +157,9 @@ def make_imager(spec):
         from ..core import DOCUMENTED_DEFAULTS, _is_default
         dd = DOCUMENTED_DEFAULTS["PersistenceImager"]
         full_wp = weight_args(spec["weight"])[1]
-        if wt == "persistence" and full_wp == {"n": 1.0}:
-            kw.pop("weight")            # the documented default weight with its documented default parameter
-            kw.pop("weight_params")
+        if wt == "persistence" and full_wp == {"n": 1.0} and (g["nb"] + g["np"]) % 2 == 0:
+            kw.pop("weight")            # the documented default weight with its documented default parameter; in the other half
+            kw.pop("weight_params")     # of the cases weight_params={} reaches the weight function's own default n
         if kern == "gaussian" and isinstance(kp.get("sigma"), list) and kp["sigma"] == [[1.0, 0.0], [0.0, 1.0]]:
             kw.pop("kernel")
             kw.pop("kernel_params")
